@@ -242,4 +242,51 @@ func newLimiter(spec *RateLimit) (l *Limiter)
   flag allocates
   flag frame=unchecked
   ensures l != nil
+
+// ---- C14 / C15: what a SUBSCRIBE / UNSUBSCRIBE packet does to the routing table ----
+ghost var psTopics int    // topic list handed to TopicManager.subscribe / unsubscribe
+ghost var psQoss int      // qos list handed to TopicManager.subscribe
+ghost var psCid string
+ghost var psSessTopics int  // topic list recorded in the session
+ghost var psSessQoss int
+ghost var psRouted bool
+ghost var psRecorded bool
+
+func (s *Session) subscribe(topics []string, qoss []byte) (err error)
+  trusted
+func (s *Session) unsubscribe(topics []string) (err error)
+  trusted
+
+func processSubscribe(c *Client, p packets.ControlPacket)
+  flag allocates
+  flag frame=unchecked
+  requires c != nil && c.broker != nil && c.broker.topicMgr != nil && c.session != nil
+  requires typeIs(p, "*packets.SubscribePacket") && ifaceVal(p) != 0
+  ensures every-requested-filter-is-routed-with-the-requested-qos-under-this-client: psRouted && psTopics == ref(ptr(ifaceVal(p), "*packets.SubscribePacket").Topics) && psQoss == ref(ptr(ifaceVal(p), "*packets.SubscribePacket").Qoss) && psCid == c.info.cid
+  ensures the-session-records-the-same-filters-once-they-are-routed: psRecorded ==> psSessTopics == psTopics && psSessQoss == psQoss
+  ghost at entry: psRouted := false
+  ghost at entry: psRecorded := false
+  ghost at call[1] TopicManager.subscribe: psRouted := true
+  ghost at call[1] TopicManager.subscribe: psTopics := ref(topics)
+  ghost at call[1] TopicManager.subscribe: psQoss := ref(qoss)
+  ghost at call[1] TopicManager.subscribe: psCid := clientID
+  ghost at call[1] Session.subscribe: psRecorded := true
+  ghost at call[1] Session.subscribe: psSessTopics := ref(topics)
+  ghost at call[1] Session.subscribe: psSessQoss := ref(qoss)
+  invariant[1] suback != nil && 0 <= idx$1
+
+func processUnsubscribe(c *Client, p packets.ControlPacket)
+  flag allocates
+  flag frame=unchecked
+  requires c != nil && c.broker != nil && c.broker.topicMgr != nil && c.session != nil
+  requires typeIs(p, "*packets.UnsubscribePacket") && ifaceVal(p) != 0
+  ensures every-named-filter-is-unrouted-for-this-client: psRouted && psTopics == ref(ptr(ifaceVal(p), "*packets.UnsubscribePacket").Topics) && psCid == c.info.cid
+  ensures and-dropped-from-the-session: psRecorded && psSessTopics == psTopics
+  ghost at entry: psRouted := false
+  ghost at entry: psRecorded := false
+  ghost at call[1] TopicManager.unsubscribe: psRouted := true
+  ghost at call[1] TopicManager.unsubscribe: psTopics := ref(topics)
+  ghost at call[1] TopicManager.unsubscribe: psCid := clientID
+  ghost at call[1] Session.unsubscribe: psRecorded := true
+  ghost at call[1] Session.unsubscribe: psSessTopics := ref(topics)
 @*/
